@@ -461,7 +461,7 @@ def _getput_case(scr, part, x, y, w, h):
     tag = '%s rect x=%d y=%d w=%d h=%d' % (scr.tag, x, y, w, h)
     rw = w * f
     cls = 'w%d/x%d' % (w % 8 if w < 16 else w, x % 8)
-    part.classes.add('getput/%s/w%d' % (g.mode.name, w % 8 if w < 16 else w))
+    part.classes.add('getput/%s' % g.mode.name)
     part.classes.add('getput/%s' % cls)
     part.n += 1
     # GET must not change the screen
